@@ -171,6 +171,9 @@ type Q struct {
 	// geo bounding box in half degrees (so that no point lies on an edge): left, top, right, bottom
 	GL, GT, GR, GB int `json:"-"`
 	Box            []int `json:"box,omitempty"`
+	// geo distance: centre <<lon, lat>> in whole degrees (one of GeoCentres) and radius in km
+	C  []int `json:"c,omitempty"`
+	Km int   `json:"km,omitempty"`
 }
 
 // Re is a regular expression tree.
@@ -339,6 +342,8 @@ func (q *Q) Real() (bluge.Query, error) {
 		return bluge.NewDateRangeInclusiveQuery(lo, hi, q.ILo, q.IHi).SetField(q.F), nil
 	case "geobox":
 		return bluge.NewGeoBoundingBoxQuery(float64(q.GL)/2, float64(q.GT)/2, float64(q.GR)/2, float64(q.GB)/2).SetField(q.F), nil
+	case "geodist":
+		return bluge.NewGeoDistanceQuery(float64(q.C[0]), float64(q.C[1]), fmt.Sprintf("%dkm", q.Km)).SetField(q.F), nil
 	case "bool":
 		bq := bluge.NewBooleanQuery()
 		for _, c := range q.Must {
@@ -456,25 +461,37 @@ func RandCorpus(r *rand.Rand, nd, ns int, rich bool) Corpus {
 
 func field(r *rand.Rand) string { return []string{"f1", "f1", "f2"}[r.Intn(3)] }
 
-// RandLeaf draws a leaf query.
+// RandGeoDist draws a distance query: centre and radius from the generated table (the radii keep clear of
+// every tabulated distance); every such query costs bluge 0.01-0.2 s (enumeration of geo cells), so they are not part of
+// the random leaves but added separately by the probe.
+func RandGeoDist(r *rand.Rand, maxKm int) *Q {
+	for {
+		c := GeoCentres[r.Intn(len(GeoCentres))]
+		km := c.Radii[r.Intn(len(c.Radii))]
+		if km <= maxKm {
+			return &Q{T: "geodist", F: "g1", C: []int{c.Lon, c.Lat}, Km: km}
+		}
+	}
+}
+
+// RandGeoBox draws a box with edges on half degrees (no point lies on an edge); one in four crosses the date
+// line (right < left).  Like distance queries these cost bluge about 0.1 s each.
+func RandGeoBox(r *rand.Rand) *Q {
+	xs := []int{-359, -341, -21, -1, 1, 21, 339, 359}
+	ys := []int{-161, -21, -1, 1, 21, 161}
+	q := &Q{T: "geobox", F: "g1", GL: xs[r.Intn(len(xs))], GR: xs[r.Intn(len(xs))], GT: ys[r.Intn(len(ys))], GB: ys[r.Intn(len(ys))]}
+	if q.GT < q.GB {
+		q.GT, q.GB = q.GB, q.GT
+	}
+	if q.GR < q.GL && r.Intn(4) > 0 {
+		q.GL, q.GR = q.GR, q.GL
+	}
+	return q
+}
+
+// RandLeaf draws a leaf query (geo leaves are drawn separately: RandGeoBox, RandGeoDist).
 func RandLeaf(r *rand.Rand, rich bool) *Q {
 	n := 12
-	if rich {
-		n = 16
-	}
-	if rich && r.Intn(n) == 15 {
-		// a box with edges on half degrees; one in four crosses the date line (right < left)
-		xs := []int{-359, -341, -21, -1, 1, 21, 339, 359}
-		ys := []int{-161, -21, -1, 1, 21, 161}
-		q := &Q{T: "geobox", F: "g1", GL: xs[r.Intn(len(xs))], GR: xs[r.Intn(len(xs))], GT: ys[r.Intn(len(ys))], GB: ys[r.Intn(len(ys))]}
-		if q.GT < q.GB {
-			q.GT, q.GB = q.GB, q.GT
-		}
-		if q.GR < q.GL && r.Intn(4) > 0 {
-			q.GL, q.GR = q.GR, q.GL
-		}
-		return q
-	}
 	if rich {
 		n = 15
 	}
@@ -680,6 +697,9 @@ func FromJSON(m map[string]any) *Q {
 	case "geobox":
 		b := m["box"].([]any)
 		q.GL, q.GT, q.GR, q.GB = int(b[0].(float64)), int(b[1].(float64)), int(b[2].(float64)), int(b[3].(float64))
+	case "geodist":
+		c := m["c"].([]any)
+		q.C, q.Km = []int{int(c[0].(float64)), int(c[1].(float64))}, num("km")
 	case "nrange", "drange":
 		q.Lo, q.Hi = num("lo"), num("hi")
 	case "bool":
